@@ -56,6 +56,7 @@ def coq_op(o):
 
 def all_paths(c):
     ps = set()
+    ps.update(o["path"] for o in c["ops"] if o["op"] == "add")
     for cm in c["commits"]:
         ps.update(e[0] for e in cm["tree"])
     ps.update(e[0] for e in c["index"])
@@ -81,6 +82,8 @@ def in_model(c):
     for e in [e for cm in c["commits"] for e in cm["tree"]] + c["index"] + c["wt"]:
         if e[1] not in KCOQ:
             return False
+    if c.get("noobject") or c.get("nocommit") or any(o["op"] in ("add", "commit") for o in c["ops"]):
+        return False          # corrupt blobs / nested trees, Add and Commit: direct oracle only
     for p in all_paths(c):
         if p == ".gitignore" or p.endswith("/.gitignore") or p.startswith(".git/") or p == ".git":
             return False
@@ -91,10 +94,10 @@ def model_expr(c):
     if not in_model(c):
         return None
     head = "HSym %s" % hx(c["head"][1]) if c["head"][0] == "sym" else "HDet %s" % coq_Z(c["head"][1])
-    st = "(mkState [%s] [%s] (%s) %s %s)" % (
+    st = "(mkState [%s] [%s] (%s) %s %s [%s])" % (
         "; ".join(coq_fmap(cm["tree"]) for cm in c["commits"]),
         "; ".join("(%s, %s)" % (hx(n), coq_Z(k)) for n, k in c["refs"]),
-        head, coq_fmap(c["index"]), coq_fmap(c["wt"]))
+        head, coq_fmap(c["index"]), coq_fmap(c["wt"]), "; ".join(coq_Z(k) for k in c.get("notree", [])))
     return "porcelain_run %s [%s]" % (st, "; ".join(coq_op(o) for o in c["ops"]))
 
 
@@ -249,6 +252,117 @@ def gen_case(rng, bucket, weights=None):
     if not df and not df_free(c):
         # a direct edit introduced a conflict: drop the edits
         c["ops"] = [o for o in ops if o["op"] in ("checkout", "reset")]
+    return c
+
+
+MISSING_KINDS = ["head-missing", "head-missing", "head-branch-missing", "head-nonbranch", "head-unborn", "target-noncommit",
+                 "target-notree", "head-notree", "target-missing", "noobject", "addcommit"]
+
+
+def same_tree(c, k):
+    t = norm(c["commits"][k]["tree"])
+    return [i for i, cm in enumerate(c["commits"]) if norm(cm["tree"]) == t]
+
+
+def gen_missing(rng, weights=None, kind=None, kinds=None):
+    """refusals of the 'missing object' family: HEAD's commit gone, HEAD on a missing / non-branch ref, target that
+    is no commit, target or HEAD commit without its tree, deleted blob / nested tree, Add / Commit that must refuse"""
+    kind = kind or rng.choice(kinds or MISSING_KINDS)
+    c = gen_case(rng, rng.choice(["random", "staged", "hard", "untracked"]), weights)
+    c["bucket"] = "missing:" + kind
+    ncom = len(c["commits"])
+    refs = dict((a, b) for a, b in c["refs"])
+    if rng.random() < 0.6:
+        c["wt"] = [list(e) for e in c["index"]]        # clean: the refusal must come from the missing object
+    target = rng.randrange(ncom)
+    names = [n for n in refs if n.startswith("refs/heads/")]
+
+    def ops(n_ops=None):
+        out = []
+        for _ in range(n_ops or rng.randrange(1, 3)):
+            o = main_op(rng, "random", c["refs"], ncom, target, weights)
+            if o["op"] == "checkout" and rng.random() < 0.35:
+                o.update({"create": True, "branch": "refs/heads/new%d" % len(out), "hash": -1 if rng.random() < 0.7 else target})
+            out.append(o)
+        return out
+
+    c["ops"] = ops()
+    if kind == "head-missing":
+        c["head"] = ["det", ncom + 5]
+    elif kind == "head-branch-missing":
+        b = rng.choice(names)
+        refs[b] = ncom + 5
+        c["head"] = ["sym", b]
+    elif kind == "head-nonbranch":
+        refs.setdefault("refs/tags/t", rng.randrange(ncom))
+        c["head"] = ["sym", "refs/tags/t"]
+    elif kind == "head-unborn":
+        c["head"] = ["sym", "refs/heads/unborn"]
+    elif kind == "target-noncommit":
+        for o in c["ops"]:
+            if o["op"] == "reset":
+                o["commit"] = rng.choice([100, 101])
+            else:
+                o["hash"] = rng.choice([100, 101])
+                if not o["create"]:
+                    o["branch"] = ""
+    elif kind == "target-notree":
+        cand = [k for k in range(ncom) if c["commits"][k]["tree"]]
+        if cand:
+            target = rng.choice(cand)
+            c["notree"] = same_tree(c, target)
+            c["ops"] = ops()
+            for o in c["ops"]:
+                if o["op"] == "reset" and rng.random() < 0.8:
+                    o["commit"] = target
+                elif o["op"] == "checkout" and rng.random() < 0.8:
+                    if o["create"] or rng.random() < 0.5:
+                        o["hash"] = target
+                        if not o["create"]:
+                            o["branch"] = ""
+                    else:
+                        tn = [n for n, k in refs.items() if k == target]
+                        if tn:
+                            o["branch"], o["hash"] = rng.choice(tn), -1
+    elif kind == "head-notree":
+        hc = c["head"][1] if c["head"][0] == "det" else refs.get(c["head"][1])
+        if hc is not None and hc < ncom and c["commits"][hc]["tree"]:
+            c["notree"] = same_tree(c, hc)
+    elif kind == "target-missing":
+        for o in c["ops"]:
+            if o["op"] == "reset":
+                o["commit"] = ncom + 7
+            elif rng.random() < 0.5:
+                o["hash"] = ncom + 7
+                if not o["create"]:
+                    o["branch"] = ""
+            else:
+                refs["refs/heads/dangling"] = ncom + 5
+                o.update({"branch": "refs/heads/dangling", "hash": -1, "create": False})
+    elif kind == "noobject":
+        cand = [(k, e[0]) for k in range(ncom) for e in c["commits"][k]["tree"]]
+        if cand:
+            k, p = rng.choice(cand)
+            if "/" in p and rng.random() < 0.3:
+                p = p.split("/")[0]
+            c["noobject"] = [[k, p]]
+            target = k
+            c["ops"] = ops()
+    elif kind == "addcommit":
+        c["ops"] = []
+        r = rng.random()
+        if r < 0.3:
+            c["head"] = ["det", ncom + 5]
+        elif r < 0.45:
+            c["head"] = ["sym", "refs/heads/unborn"]
+        for _ in range(rng.randrange(1, 3)):
+            if rng.random() < 0.5:
+                c["ops"].append({"op": "add", "path": rng.choice(["nosuch", "d/nosuch", "../x", ".git/config", rng.choice(PATHS)])})
+            else:
+                c["ops"].append({"op": "commit", "all": rng.random() < 0.3})
+    c["refs"] = sorted([a, b] for a, b in refs.items())
+    if not df_free(c):
+        c["ops"] = [o for o in c["ops"] if o["op"] not in ("write", "rm")]
     return c
 
 
@@ -425,9 +539,15 @@ class PorcelainSuite(Suite):
     coq_chunk = 60
     buckets = [(1, "random")]
     weights = None
+    # C25 / C30 quantify over intact object stores: only the modelled kinds; C29 takes all (None)
+    missing_kinds = [k for k in MISSING_KINDS if k not in ("noobject", "addcommit")]
 
     def gen(self, rng, n, tier):
-        return [gen_case(rng, pick_weighted(rng, self.buckets), self.weights) for _ in range(n)]
+        out = []
+        for _ in range(n):
+            b = pick_weighted(rng, self.buckets)
+            out.append(gen_missing(rng, self.weights, kinds=self.missing_kinds) if b == "missing" else gen_case(rng, b, self.weights))
+        return out
 
     def model_expr(self, c):
         return model_expr(c)
